@@ -151,6 +151,10 @@ func (db *DB) recover() error {
 	for i := 0; i < len(segments)-1; i++ {
 		segments[i].meta.Full = true
 	}
+	// Make the newest segment the current one, so that Sync flushes it.
+	if err := db.datalog.swapSegment(); err != nil {
+		return err
+	}
 
 	if err := removeRecoveryBackupFiles(db.opts.FileSystem); err != nil {
 		logger.Printf("error removing recovery backups files: %v", err)
